@@ -611,7 +611,7 @@ Proof.
   rewrite extract_port_sp; try assumption; [|rewrite lenN_app; cbn [lenN]; unfold npos; lia].
   rewrite <- (app_nil_r dps) at 1.
   rewrite extract_port_last; try assumption; [|exact I|rewrite app_nil_r; unfold npos; lia].
-  cbn [add_size]. unfold header_set_addrs, header_new. cbn [h_v2 h_cmd h_ignore h_tlvs].
+  cbn [bt_atEnd add_size]. unfold header_set_addrs, header_new. cbn [h_v2 h_cmd h_ignore h_tlvs].
   f_equal. rewrite L1. repeat (rewrite lenN_app || cbn [lenN]).
   change (lenN pp_magic1) with 5. change (lenN s_TCP) with 3. lia.
 Qed.
@@ -669,8 +669,10 @@ Lemma v1_tcp_line ipf t rest :
   pp_parse ipf (pp_magic1 ++ (32 :: s_TCP ++ t) ++ 13 :: 10 :: rest) =
   match v1_addresses ipf t with
   | inl e => Reject e
-  | inr (s, sp, d, dp) =>
-      Ok (header_set_addrs (header_new false pp_cmdProxy) s sp d dp) (lenN pp_magic1 + (lenN (32 :: s_TCP ++ t) + 1 + 1))
+  | inr (s, sp, d, dp, lo) =>
+      if bt_atEnd lo
+      then Ok (header_set_addrs (header_new false pp_cmdProxy) s sp d dp) (lenN pp_magic1 + (lenN (32 :: s_TCP ++ t) + 1 + 1))
+      else Reject E1_garbage_after_dst_port
   end.
 Proof.
   intros Ht Hlen. rewrite pp_parse_v1. unfold v1_parse. rewrite v1_isolate_ok.
@@ -680,7 +682,7 @@ Proof.
   2:{ change v1_maxInteriorLength with 100. repeat (rewrite lenN_app || cbn [lenN]). change (lenN s_TCP) with 3. lia. }
   unfold v1_interior. cbn [tok_skipChar N.eqb Pos.eqb]. rewrite tok_skip_self.
   change (negb (lenN s_TCP =? 0)) with true. cbv iota.
-  destruct (v1_addresses ipf t) as [e|[[[s sp] d] dp]]; reflexivity.
+  destruct (v1_addresses ipf t) as [e|[[[[s sp] d] dp] lo]]; [reflexivity|]. destruct (bt_atEnd lo); reflexivity.
 Qed.
 
 (* One::ParseAddresses up to the family check *)
@@ -691,7 +693,7 @@ Lemma v1_addresses_upto_family ipf fam st dt sa da more :
   if negb (list_eqb (address_family sa da) [fam]) then inl E1_family_mismatch else
   match v1_extract_port true more with
   | inl e => inl e
-  | inr (sp, r5) => match v1_extract_port false r5 with inl e => inl e | inr (dp, _) => inr (sa, sp, da, dp) end
+  | inr (sp, r5) => match v1_extract_port false r5 with inl e => inl e | inr (dp, r6) => inr (sa, sp, da, dp, r6) end
   end.
 Proof.
   intros Hfc Hst Hdt Hsc Hdc Hsa Hda L1 L2. unfold v1_addresses.
@@ -1101,7 +1103,8 @@ Lemma v1_interior_size ipf i m h n : v1_interior ipf i m = Ok h n -> n = m.
 Proof.
   unfold v1_interior. destruct (tok_skipChar 32 i) as [[|] t1]; [|discriminate].
   destruct (tok_skip s_TCP t1) as [[|] t2].
-  - destruct (v1_addresses ipf t2) as [e|[[[s sp] d] dp]]; [discriminate|]. intros H; inversion H; subst; reflexivity.
+  - destruct (v1_addresses ipf t2) as [e|[[[[s sp] d] dp] lo]]; [discriminate|]. destruct (bt_atEnd lo); [|discriminate].
+    intros H; inversion H; subst; reflexivity.
   - destruct (tok_skip s_UNKNOWN t1) as [[|] t3]; [|discriminate]. intros H; inversion H; subst; reflexivity.
 Qed.
 
@@ -1142,7 +1145,7 @@ Proof.
       unfold v1_parse. destruct (v1_isolate _) as [i m| |]; try discriminate.
       unfold v1_interior. destruct (tok_skipChar 32 i) as [[|] t1]; [|discriminate].
       destruct (tok_skip s_TCP t1) as [[|] t2].
-      * destruct (v1_addresses ipf t2) as [e|[[[s sp] d] dp]] eqn:V; [|discriminate].
+      * destruct (v1_addresses ipf t2) as [e|[[[[s sp] d] dp] lo]] eqn:V; [|destruct (bt_atEnd lo); discriminate].
         intros Q0; inversion Q0; subst e. clear Q0. revert V. unfold v1_addresses.
         destruct (tok_prefix famChars 1 t2) as [[fam r1]|]; [|discriminate].
         destruct (tok_skipChar 32 r1) as [[|] r2]; [|discriminate].
@@ -1190,23 +1193,21 @@ Proof.
 Qed.
 
 (* ================================================================== *)
-(* the deviation: whatever follows the digits of the destination port is ignored *)
-Theorem v1_tcp_trailing_bytes_ignored ipf fam st dt sa da sps dps junk rest :
+(* bytes after the digits of the destination port: rejected (since the repair of One::Parse) *)
+Theorem v1_trailing_bytes_rejected ipf fam st dt sa da sps dps junk rest :
   st <> [] -> dt <> [] -> forallb ipChars st = true -> forallb ipChars dt = true ->
-  ipf st = Some sa -> ipf dt = Some da ->
-  ((fam = 52 /\ is_ipv4 sa = true /\ is_ipv4 da = true) \/ (fam = 54 /\ is_ipv4 sa = false /\ is_ipv4 da = false)) ->
-  sps <> [] -> Forall is_dec sps -> dec_value sps <= 65535 ->
-  dps <> [] -> Forall is_dec dps -> dec_value dps <= 65535 ->
-  stops10 junk -> forallb nonCR junk = true ->
+  ipf st = Some sa -> ipf dt = Some da -> famChars fam = true ->
+  sps <> [] -> Forall is_dec sps -> dps <> [] -> Forall is_dec dps ->
+  junk <> [] -> stops10 junk -> forallb nonCR junk = true ->
   lenN (fam :: 32 :: st ++ 32 :: dt ++ 32 :: sps ++ 32 :: dps ++ junk) <= 96 ->
-  pp_parse ipf (pp_magic1 ++ (32 :: s_TCP ++ fam :: 32 :: st ++ 32 :: dt ++ 32 :: sps ++ 32 :: dps ++ junk) ++ 13 :: 10 :: rest) =
-  Ok {| h_v2 := false; h_cmd := pp_cmdProxy; h_ignore := false;
-        h_src := sa; h_sport := dec_value sps; h_dst := da; h_dport := dec_value dps; h_tlvs := [] |}
-     (lenN pp_magic1 + (lenN (32 :: s_TCP ++ fam :: 32 :: st ++ 32 :: dt ++ 32 :: sps ++ 32 :: dps ++ junk) + 1 + 1)).
+  exists e,
+  pp_parse ipf (pp_magic1 ++ (32 :: s_TCP ++ fam :: 32 :: st ++ 32 :: dt ++ 32 :: sps ++ 32 :: dps ++ junk) ++ 13 :: 10 :: rest)
+  = Reject e.
 Proof.
-  intros Hst Hdt Hsc Hdc Hsa Hda Hfam Hs1 Hs2 Hs3 Hd1 Hd2 Hd3 Hstop Hj Hlen.
-  assert (Hfc : famChars fam = true) by (destruct Hfam as [(-> & _)|(-> & _)]; reflexivity).
-  assert (Hfn : nonCR fam = true) by (destruct Hfam as [(-> & _)|(-> & _)]; vm_compute; reflexivity).
+  intros Hst Hdt Hsc Hdc Hsa Hda Hfc Hs1 Hs2 Hd1 Hd2 Hjn Hstop Hj Hlen.
+  assert (Hfn : nonCR fam = true).
+  { unfold famChars in Hfc. rewrite nonCR_spec. destruct (fam =? 13) eqn:E; [|reflexivity].
+    apply N.eqb_eq in E. subst. discriminate. }
   pose proof Hlen as Hlen'. repeat (rewrite lenN_app in Hlen' || cbn [lenN] in Hlen').
   rewrite v1_tcp_line; [| |exact Hlen].
   2:{ cbn [forallb]. rewrite Hfn. replace (nonCR 32) with true by (vm_compute; reflexivity). cbn [andb].
@@ -1218,12 +1219,16 @@ Proof.
       replace (nonCR 32) with true by (vm_compute; reflexivity). cbn [andb].
       apply forallb_app'; [apply forallb_Forall_dec; exact Hd2|exact Hj]. }
   rewrite (v1_addresses_upto_family ipf fam st dt sa da (sps ++ 32 :: dps ++ junk) Hfc Hst Hdt Hsc Hdc Hsa Hda) by (unfold npos; lia).
-  assert (Haf : address_family sa da = [fam]).
-  { unfold address_family. destruct Hfam as [(-> & -> & ->)|(-> & -> & ->)]; reflexivity. }
-  rewrite Haf, list_eqb_refl. cbn [negb].
+  destruct (negb _); [eexists; reflexivity|].
+  destruct (N.leb_spec (dec_value sps) 65535) as [Hs3|Hs3].
+  2:{ destruct (extract_port_big true sps (32 :: dps ++ junk) Hs1 Hs2 Hs3 (stops10_sp _)) as [e He];
+        [repeat (rewrite lenN_app || cbn [lenN]); unfold npos; lia|]. rewrite He. eexists; reflexivity. }
   rewrite extract_port_sp; try assumption; [|repeat (rewrite lenN_app || cbn [lenN]); unfold npos; lia].
+  destruct (N.leb_spec (dec_value dps) 65535) as [Hd3|Hd3].
+  2:{ destruct (extract_port_big false dps junk Hd1 Hd2 Hd3 Hstop) as [e He]; [rewrite lenN_app; unfold npos; lia|].
+      rewrite He. eexists; reflexivity. }
   rewrite extract_port_last; try assumption; [|rewrite lenN_app; unfold npos; lia].
-  reflexivity.
+  destruct junk as [|j junk']; [congruence|]. cbn [bt_atEnd]. eexists; reflexivity.
 Qed.
 
 Definition b_1111 : bytes := [49;46;49;46;49;46;49].                      (* "1.1.1.1" *)
@@ -1238,18 +1243,16 @@ Definition line_trailing : bytes :=
 Definition line_mapped : bytes :=
   pp_magic1 ++ (32 :: s_TCP ++ 54 :: 32 :: b_mapped ++ 32 :: b_v6 ++ 32 :: [49;32;50]) ++ 13 :: 10 :: [].
 
-Theorem v1_bytes_after_dst_port_refuted ipf :
+Theorem v1_bytes_after_dst_port_rejected ipf :
   ipf b_1111 = Some a_1111 ->
-  pp_parse ipf line_trailing =
-  Ok {| h_v2 := false; h_cmd := pp_cmdProxy; h_ignore := false;
-        h_src := a_1111; h_sport := 1; h_dst := a_1111; h_dport := 2; h_tlvs := [] |} (lenN line_trailing).
+  forall rest, pp_parse ipf (line_trailing ++ rest) = Reject E1_garbage_after_dst_port.
 Proof.
-  intros H. unfold line_trailing.
-  rewrite (v1_tcp_trailing_bytes_ignored ipf 52 b_1111 b_1111 a_1111 a_1111 [49] [50] [120;121;122] []);
+  intros H rest.
+  change (line_trailing ++ rest) with
+    (pp_magic1 ++ (32 :: s_TCP ++ 52 :: 32 :: b_1111 ++ 32 :: b_1111 ++ 32 :: [49] ++ 32 :: [50] ++ [120;121;122]) ++ 13 :: 10 :: rest).
+  rewrite v1_tcp_line; [|vm_compute; reflexivity|vm_compute; discriminate].
+  rewrite (v1_addresses_upto_family ipf 52 b_1111 b_1111 a_1111 a_1111 ([49] ++ 32 :: [50] ++ [120;121;122]));
     try assumption; try discriminate; try reflexivity.
-  - left. repeat split; reflexivity.
-  - repeat constructor; unfold is_dec; lia.
-  - repeat constructor; unfold is_dec; lia.
 Qed.
 
 Theorem v1_tcp6_v4mapped_refuted ipf :
